@@ -66,7 +66,7 @@ def check(ctx):
         i = names.index("release_data") - (len(names) - len(a.defaults))
         if i >= 0:
             dflt = a.defaults[i]
-    ok = dflt is None or unparse(dflt) == "release_data"
+    ok = dflt is None or eqv(dflt, "release_data")
     ctx.ob("DELEG.release-default", ft, "finish_task(..., release_data=release_data)", ok, "" if ok else f"default is {unparse(dflt)}")
     # --- guards
     for c in calls(ft, "release_data", nested=False):
@@ -136,7 +136,7 @@ def check(ctx):
     ok = False
     if dels:
         facts = inline_facts(rd, dels[0][0])
-        others = [f_ for f_ in facts if not (unparse(f_[0]) == "delete" and f_[1] is True)]
+        others = [f_ for f_ in facts if not (eqv(f_[0], "delete") and f_[1] is True)]
         ok = not others
     ctx.ob("PAIR.release-data.cache", rd, "if delete: del state['cache'][key]", ok, "" if ok else "cached value is not (unconditionally under `delete`) removed")
     wd = find("del M_s['waiting_data'][key]", rd, nested=False)
@@ -148,14 +148,14 @@ def check(ctx):
     # ---------------- the protected set: exactly the requested keys, for the whole run
     ga = mod.func("get_async")
     defs = [a for a in walk_no_nested(ga) if isinstance(a, (ast.Assign, ast.AugAssign, ast.AnnAssign)) and any(isinstance(t, ast.Name) and t.id == "results" for t in (a.targets if isinstance(a, ast.Assign) else [a.target]))]
-    muts = [c for c in ast.walk(ga) if isinstance(c, ast.Call) and isinstance(c.func, ast.Attribute) and unparse(c.func.value) == "results" and c.func.attr in ("difference_update", "discard", "remove", "pop", "clear", "intersection_update", "symmetric_difference_update", "update", "add")]
-    ok = len(defs) == 1 and isinstance(defs[0], ast.Assign) and unparse(defs[0].value) == "set(result_flat)" and not muts
+    muts = [c for c in ast.walk(ga) if isinstance(c, ast.Call) and isinstance(c.func, ast.Attribute) and eqv(c.func.value, "results") and c.func.attr in ("difference_update", "discard", "remove", "pop", "clear", "intersection_update", "symmetric_difference_update", "update", "add")]
+    ok = len(defs) == 1 and isinstance(defs[0], ast.Assign) and eqv(defs[0].value, "set(result_flat)") and not muts
     ctx.ob("OWN.protected-set", ga, "results = set(result_flat), assigned once and never modified", ok, "" if ok else f"the protected set is changed after it was built ({[unparse(m)[:50] for m in muts] or [unparse(d)[:50] for d in defs]}): a requested key can be released before the scheduler returns it")
     rf = find("result_flat = M_v", ga)
     ok = len(rf) >= 1 and all("result" in unparse(b["M_v"]) for _, b in rf)
     ctx.ob("OWN.protected-set.source", ga, "result_flat is the flattened request", ok)
     ft = [c for c in calls(ga, "finish_task")]
-    ok = len(ft) == 1 and len(ft[0].args) >= 4 and unparse(ft[0].args[3]) == "results"
+    ok = len(ft) == 1 and len(ft[0].args) >= 4 and eqv(ft[0].args[3], "results")
     ctx.ob("OWN.protected-set.use", ga, "finish_task receives that set as its `results`", ok)
 
 
